@@ -152,7 +152,7 @@ theorem physB_of_room : ∀ (b : B) (dt : DataType) (nl : Bool), BuiltFor dt nl 
     obtain ⟨ufs, mode, rfl, hu⟩ := hb
     simp only [room] at hr
     simp only [PhysB]
-    exact physBU_of_room fs ufs 0 hu (by simpa [physKeysDT] using hk) hr
+    exact physBU_of_room fs ufs 0 hu (by simpa [physKeysDT] using hk) (by omega)
 theorem physBL_of_room : ∀ (bl : BL) (fs : Fields), BuiltForL fs bl → physKeysFs fs = true → 1 ≤ roomL bl → PhysBL bl
   | .nil, _, _, _, _ => by simp [PhysBL]
   | .cons b m r, .nil, hb, _, _ => by simp [BuiltForL] at hb
